@@ -465,6 +465,7 @@ func init() {
 			{Name: "normalize", Module: "Normalize", Cfg: "Normalize_quick.cfg", Tier: "quick", Workers: 4, XmxMB: 4000, Timeout: 10 * time.Minute, ToCases: normalizeCases},
 			{Name: "normalize", Module: "Normalize", Cfg: "Normalize_thorough.cfg", Tier: "thorough", Workers: 16, XmxMB: 8000, Timeout: 30 * time.Minute, ToCases: normalizeCases},
 			{Name: "pbprop", Module: "PBProp", Cfg: "PBProp.cfg", Workers: 6, XmxMB: 4000, Timeout: 10 * time.Minute},
+			{Name: "pbprop-symbolic-weights", Module: "PBPropApa", Cfg: "PBPropApa.cfg", Engine: "apalache", Inv: "AllInv", Depth: 6, Tier: "thorough", XmxMB: 8000, Timeout: 20 * time.Minute},
 			{Name: "parse-card", Module: "ParseCard", Cfg: "ParseCard_deep.cfg", Tier: "thorough", Workers: 8, XmxMB: 10000, Timeout: 20 * time.Minute, ToCases: parseCardSeqCases},
 			{Name: "parse-card-wide", Module: "ParseCard", Cfg: "ParseCard_quick.cfg", Workers: 6, XmxMB: 8000, Timeout: 20 * time.Minute, ToCases: parseCardSeqCases},
 			{Name: "parse-card-single-pass", Module: "ParseCard", Cfg: "ParseCard_once.cfg", Workers: 6, XmxMB: 8000, Timeout: 20 * time.Minute, ExpectViolation: "Fixpoint"},
